@@ -17,6 +17,7 @@ from common import Violation, sexp, Atom, parse_sexp
 
 TITLE = "combinatorial unranking"
 LEVEL = "proof"
+DOMAINS = ['Comb']
 
 
 def C():
